@@ -639,7 +639,10 @@ class Index:
         if r is None:
             raise Unfoldable(f'unresolved {ast.unparse(expr)}')
         if r[0] == 'assign':
-            return self.fold(r[1], r[2][-1], None, _depth + 1)
+            # a class attribute's value sees the earlier attributes of its class body by bare name
+            owner = getattr(getattr(r[2][-1], '_parent', None), '_parent', None)
+            env = _ClassEnv(self, r[1], owner) if isinstance(owner, ast.ClassDef) else None
+            return self.fold(r[1], r[2][-1], env, _depth + 1)
         if r[0] == 'def':
             return FuncRef(f'{r[1]}:{self.qualname(r[2])}')
         if r[0] == 'external':
